@@ -639,9 +639,74 @@ func runDigester(c *core.Ctx) {
 			}
 		}
 		un := fam.Upload.Obj().Name()
-		if dField < 0 || wField < 0 || eField < 0 {
+		// digester and writer may be grouped in a record of the store package (hash blobHash{d, w}) built by a constructor
+		hashField := -1
+		var hashStruct *types.Struct
+		hd, hw := -1, -1
+		if (dField < 0 || wField < 0) && eField >= 0 {
+			for i := 0; i < st.NumFields(); i++ {
+				ht := st.Field(i).Type()
+				if pt, ok := ht.(*types.Pointer); ok {
+					ht = pt.Elem()
+				}
+				hn, ok := ht.(*types.Named)
+				if !ok || hn.Obj().Pkg() == nil || hn.Obj().Pkg().Path() != r.StorePath {
+					continue
+				}
+				hs, ok := hn.Underlying().(*types.Struct)
+				if !ok {
+					continue
+				}
+				d2, w2 := -1, -1
+				for k := 0; k < hs.NumFields(); k++ {
+					switch {
+					case isNamed(hs.Field(k).Type(), digestPkg, "Digester"):
+						d2 = k
+					case isNamed(hs.Field(k).Type(), "io", "Writer"):
+						w2 = k
+					}
+				}
+				if d2 >= 0 && w2 >= 0 {
+					hashField, hashStruct, hd, hw = i, hs, d2, w2
+				}
+			}
+		}
+		if (dField < 0 || wField < 0 || eField < 0) && hashField < 0 {
 			c.Unresolved("digester-fields:"+un, "upload type lacks digester / writer / expected-digest fields")
 			continue
+		}
+		dName := ""
+		if hashField >= 0 {
+			dName = hashStruct.Field(hd).Name()
+		} else {
+			dName = st.Field(dField).Name()
+		}
+		// pairedLiteral: a record literal whose writer is MultiWriter(…, <its own digester>.Hash())
+		pairedLiteral := func(v ssa.Value) bool {
+			ss := structStores(an.Origin(v))
+			if len(ss) == 0 {
+				if u, ok := an.Strip(v).(*ssa.UnOp); ok {
+					ss = structStores(u.X)
+				}
+			}
+			if hashStruct == nil {
+				return false
+			}
+			dvs, wvs := ss[hashStruct.Field(hd).Name()], ss[hashStruct.Field(hw).Name()]
+			if len(dvs) != 1 || len(wvs) != 1 {
+				return false
+			}
+			mw, _ := an.CallOf(an.Origin(wvs[0]))
+			if mw == nil || !an.IsFunc(mw, "io", "MultiWriter") {
+				return false
+			}
+			elems, _ := variadicElems(mw.Call.Args[0])
+			for _, el := range elems {
+				if hc, _ := an.CallOf(an.Origin(el)); hc != nil && hc.Call.IsInvoke() && hc.Call.Method.Name() == "Hash" && an.Origin(hc.Call.Value) == an.Origin(dvs[0]) {
+					return true
+				}
+			}
+			return false
 		}
 		// (1) pairing
 		for _, fn := range c.P.Funcs("internal/store") {
@@ -649,13 +714,46 @@ func runDigester(c *core.Ctx) {
 				continue
 			}
 			var dStores, wStores []*ssa.Store
+			nRec := 0
 			an.Instrs(fn, func(in ssa.Instruction) {
 				s, ok := in.(*ssa.Store)
 				if !ok {
 					return
 				}
 				fa, ok := s.Addr.(*ssa.FieldAddr)
-				if !ok || an.NamedOf(fa.X.Type()) != fam.Upload {
+				if !ok {
+					return
+				}
+				if hashField >= 0 {
+					// the record assigned as a whole: every value that can arrive is a paired literal (of the constructor)
+					if an.NamedOf(fa.X.Type()) == fam.Upload && fa.Field == hashField {
+						nRec++
+						key := fmt.Sprintf("pair:%s#r%d", kn(c.P.FuncName(fn)), nRec)
+						okAll := true
+						hr := an.HelperReturns(an.Origin(s.Val), func(h *ssa.Function) bool { return core.FuncPkgPath(h) == r.StorePath })
+						if len(hr) == 0 {
+							okAll = pairedLiteral(s.Val)
+						}
+						for _, x := range hr {
+							if !pairedLiteral(x.Val) {
+								okAll = false
+							}
+						}
+						c.Check(okAll, key, s.Pos(), "the hash record assigned at %s pairs its digester with writer = MultiWriter(storage, that digester.Hash()): %v — otherwise later bytes are hashed by another digester (or not at all) and the digest no longer describes the stored content", c.P.Pos(s.Pos()), okAll)
+						return
+					}
+					// a field of the record assigned on its own
+					if inner, ok := fa.X.(*ssa.FieldAddr); ok && an.NamedOf(inner.X.Type()) == fam.Upload && inner.Field == hashField {
+						switch fa.Field {
+						case hd:
+							dStores = append(dStores, s)
+						case hw:
+							wStores = append(wStores, s)
+						}
+					}
+					return
+				}
+				if an.NamedOf(fa.X.Type()) != fam.Upload {
 					return
 				}
 				switch fa.Field {
@@ -682,7 +780,7 @@ func runDigester(c *core.Ctx) {
 								paired = true
 							}
 							// the digester read back from the field just assigned
-							if _, p := accessPath(hc.Call.Value); len(p) > 0 && p[len(p)-1] == st.Field(dField).Name() {
+							if _, p := accessPath(hc.Call.Value); len(p) > 0 && p[len(p)-1] == dName {
 								if an.Reaches(ds, hc) {
 									paired = true
 								}
@@ -751,13 +849,35 @@ func runDigester(c *core.Ctx) {
 			c.Fail("commit:"+un, fn.Pos(), "no rename / blob-map insert found in the commit method")
 			continue
 		}
-		isDigestOfField := func(v ssa.Value) bool {
+		var isDigestOfField func(v ssa.Value) bool
+		isDigestOfField = func(v ssa.Value) bool {
 			call, _ := an.CallOf(an.Strip(v))
-			if call == nil || !call.Call.IsInvoke() || call.Call.Method.Name() != "Digest" {
+			if call == nil {
+				return false
+			}
+			if !call.Call.IsInvoke() {
+				// an accessor of the hash record: every return is the digester field's Digest()
+				if h := call.Call.StaticCallee(); h != nil && hashStruct != nil && h.Signature.Recv() != nil && core.FuncPkgPath(h) == r.StorePath && len(h.Blocks) > 0 {
+					if rs, ok := an.Deref(h.Signature.Recv().Type()).Underlying().(*types.Struct); ok && rs == hashStruct {
+						all, n := true, 0
+						an.Instrs(h, func(in ssa.Instruction) {
+							if ret, ok := in.(*ssa.Return); ok && len(ret.Results) == 1 {
+								n++
+								if !isDigestOfField(ret.Results[0]) {
+									all = false
+								}
+							}
+						})
+						return all && n > 0
+					}
+				}
+				return false
+			}
+			if call.Call.Method.Name() != "Digest" {
 				return false
 			}
 			_, p := accessPath(call.Call.Value)
-			return len(p) > 0 && p[len(p)-1] == st.Field(dField).Name()
+			return len(p) > 0 && p[len(p)-1] == dName
 		}
 		cmpOK := false
 		for _, b := range fn.Blocks {
